@@ -1,3 +1,5 @@
+//go:build c07 || allprops
+
 package main
 
 import (
@@ -69,10 +71,6 @@ func c07NewEnv(nconn int) *c07Env {
 	}
 	return env
 }
-
-type discardLogger struct{}
-
-func (discardLogger) Printf(string, ...interface{}) {}
 
 // poll issues NOOP (allowExpunge) or FETCH (not) and parses the untagged updates.
 func (c *c07Conn) poll(allow bool) string {
